@@ -251,6 +251,14 @@ def run(ctx):
         return
     dist = {"ends": {}, "stops_per_phase": {"pre": 0, "race": 0, "body": 0, "cleanup": 0, "after": 0}, "started": 0, "never_started": 0,
             "with_incmap": 0, "with_hashmap": 0, "with_nested": 0, "with_failing_close": 0, "rerun_during_body": 0, "max_stops": 0}
+    # a call that missed the 1.5 s deadline is confirmed with a 6 s deadline before it is called a hang (overloaded machine)
+    hung = [dict(c, deadline_ms=6000) for c in cases if byid[c["id"]]["hang"]][:24]
+    if hung:
+        rc2, by2, _ = run_harness(hung)
+        for c in hung:
+            if rc2 == 0 and c["id"] in by2 and not by2[c["id"]]["hang"]:
+                byid[c["id"]] = by2[c["id"]]
+                ctx.extra["hang_not_confirmed"] = ctx.extra.get("hang_not_confirmed", 0) + 1
     for c in cases:
         r = byid[c["id"]]
         ctx.add_case(canon(c), nontrivial(c))
@@ -288,7 +296,8 @@ def run(ctx):
                 break
             if mm:
                 # timing can make a released Stop arrive late; re-run the differing cases once before calling it a break
-                again = [part[k] for k in mm][:40]   # more than that is not timing
+                # more than 40 is not timing; the re-run gives released Stops 30 ms (instead of 3) to reach their blocking point
+                again = [dict(part[k], settle_us=30000, deadline_ms=5000) for k in mm][:40]
                 rc2, by2, err2 = run_harness(again)
                 if rc2 == 0 and len(by2) == len(again):
                     mm2, out2 = model_mismatches(again, by2, "C17_retry_%d" % s)
@@ -324,6 +333,6 @@ MANIFEST = {
              "an implementation-side oracle checks the statement directly (every call returns, each Close exactly once, no commit after a Stop returned, further Runs refused, distinct error classes)."),
     "level_note": ("Trusted: Coq kernel; the hand-written model (tie = phase-scripted differential testing: 300 quick / 4000 thorough scripts, so a code change is caught only if a script reaches it); "
                    "Go's mutex/channel/defer semantics as the model's primitive steps. Partial: the goroutine scheduler is only sampled (the driver lets released Stops settle for 3 ms; a differing case is "
-                   "re-run once before it counts); liveness is a decreasing measure plus enabledness, scheduler fairness is assumed; a Nested resource's drain is the same theorem instantiated for the inner context, "
+                   "re-run once with 30 ms before it counts); liveness is a decreasing measure plus enabledness, scheduler fairness is assumed; a Nested resource's drain is the same theorem instantiated for the inner context, "
                    "not a single composed LTS; real FailureDetector/TCPMailboxes Close are not driven by this check."),
 }
